@@ -247,7 +247,7 @@ def admissible(case, A):
 RHS_REAL = ['vec', 'col', 'blk3', 'blk3f', 'blkdep', 'blkz', 'zero']
 RHS_CPLX = ['cvec', 'ccol', 'cblk3', 'cblkdep', 'cblkz']
 RHS_ALL = RHS_REAL + RHS_CPLX
-X0_ALL = ['none', 'zero', 'exact', 'pert']
+X0_ALL = ['none', 'zero', 'exact', 'pert', 'far']
 
 
 def make_rhs(name, n, t):
@@ -285,6 +285,8 @@ def make_x0(kind, Aref, b, tr, t):
     xe = np.linalg.solve(rs.op(Aref, tr), b).astype(dt)
     if kind == 'exact':
         return xe
+    if kind == 'far':        # the solution of a load case 2000 times larger (a previous design / time step far away)
+        return (2000.0 * xe).astype(dt)
     g = tab(b.size, 12, t).reshape(b.shape)
     return (1.1 * xe + 0.05 * g).astype(dt)
 
@@ -376,7 +378,8 @@ def make_solver(case, A_init=None):
         return ps.SolverSparseLU(*args)
     if name == 'CG':
         pre = make_precond(case['prec'], case.get('grid'))
-        return ps.CG(A_init, preconditioner=pre, tol=case['tol'], maxit=case['maxit'])
+        kw_ = {'restart': int(case['restart'])} if case.get('restart') else {}
+        return ps.CG(A_init, preconditioner=pre, tol=case['tol'], maxit=case['maxit'], **kw_)
     raise KeyError(name)
 
 
@@ -870,7 +873,7 @@ def cg_gen_cases(t, sizes, pattern_max_n, tols, storages, x0_rhs, ctor='update')
 def split_x0(base, x0_rhs):
     """all right-hand sides without a guess + the chosen ones with every kind of guess (two descriptors)"""
     yield dict(base, rhs=RHS_ALL, x0=['none'])
-    yield dict(base, rhs=[r for r in RHS_ALL if r in x0_rhs], x0=['zero', 'exact', 'pert', 'zero_real'])
+    yield dict(base, rhs=[r for r in RHS_ALL if r in x0_rhs], x0=['zero', 'exact', 'pert', 'zero_real', 'far'])
 
 
 def cg_fe_cases(t, grids, fams, precs, tols, storages, x0_rhs, ctor='update'):
@@ -926,11 +929,25 @@ def generate(tier, seed):
         yield {'__level__': 'cg/fe'}
         yield from cg_fe_cases(t, GRIDS_Q, ['fe_elast_r', 'fe_elast_c', 'fe_poisson_r'], PRECS_PLAIN + PRECS_MG,
                                [1e-7], ['csc'], X0_RHS_Q)
+        # explicit restarts (residual recomputed every k-th iteration) reached within the few iterations small systems need
+        yield {'__level__': 'cg/explicit restart every 1, 2, 3 iterations'}
+        for rs_ in (1, 2, 3):
+            for c_ in cg_gen_cases(t, [3, 5, 8], 0, [1e-7], ['csc'], X0_RHS_Q):
+                if c_['prec'] in ('id', 'jac1', 'sor1'):
+                    yield dict(c_, restart=rs_)
+            for c_ in cg_fe_cases(t, GRIDS_Q[:2], ['fe_elast_r', 'fe_elast_c'], ['id', 'sor1'], [1e-7], ['csc'], X0_RHS_Q):
+                yield dict(c_, restart=rs_)
         return
     yield {'__level__': 'cg/generated'}
     yield from cg_gen_cases(t, SIZES, 3, [1e-7, 1e-10], ['dense', 'csc', 'csr'], X0_RHS_T)
     yield {'__level__': 'cg/fe'}
     yield from cg_fe_cases(t, GRIDS_Q, FE_FAMS, PRECS_PLAIN + PRECS_MG, [1e-7, 1e-10], ['csc', 'csr'], X0_RHS_T)
+    yield {'__level__': 'cg/explicit restart every 1, 2, 3, 5 iterations'}
+    for rs_ in (1, 2, 3, 5):
+        for c_ in cg_gen_cases(t, SIZES, 3, [1e-7], ['csc', 'dense'], X0_RHS_Q):
+            yield dict(c_, restart=rs_)
+        for c_ in cg_fe_cases(t, GRIDS_Q, FE_FAMS, ['id', 'jac1', 'sor1'], [1e-7], ['csc'], X0_RHS_Q):
+            yield dict(c_, restart=rs_)
     yield {'__level__': 'constructor-given-matrix'}
     yield from direct_cases(t, SIZES, 3, ctor='init')
     yield from cg_gen_cases(t, SIZES, 2, [1e-7], ['csc'], X0_RHS_Q, ctor='init')
